@@ -72,6 +72,8 @@ CONFIGS = {
     # shutdown listeners: Wait must not return while one of them is still inside OnShutdown
     "listen": (2, 2, False, [[add(1, ln=[("p", 0)]), add(1, ln=[("p", 0), ("a", 0)]), incr(1), incr(2), call("wait")]], 3),
     "listenshut": (2, 2, False, [[add(2, ln=[("a", 0)]), add(1, sd=[("p", 0)], ln=[("p", 0)]), incr(2), call("shutdown")], [incr(1), call("wait")]], 3),
+    # a user wait group: the worker finishes the bars and calls Done; Wait sees the bars through their last frames
+    "uwg":    (2, 2, False, [[add(1, rm=True), add(1), call("wait")], [incr(1), incr(2)]], 3, "auto", 0, True),
     "priopop": (2, 2, True, [[add(1), add(2), incr(1), call("wait")], [{"op": "barwait", "b": 1}, prio(1, -3), prio(2, 4), incr(2, 2)]], 4),
 }
 
@@ -118,8 +120,9 @@ def write_model(wd, name, extra_cfg="", spec="Spec", invariants="NoPanic NoHang 
     mod = "MCgen_%s" % name
     open(os.path.join(wd, mod + ".tla"), "w").write(
         "---- MODULE %s ----\nEXTENDS %s\nP == %s\nF == %s\nMT == %d\n====\n" % (mod, base, prog, fault, ticks))
-    cfg = ("SPECIFICATION %s\nCONSTANTS\n  NB = %d\n  Q = %d\n  Pop = %s\n  Prog <- P\n  Fault <- F\n  Refresh = \"%s\"\n  MaxTicks <- MT\n%s"
-           "CHECK_DEADLOCK FALSE\n" % (spec, nb, q, "TRUE" if pop else "FALSE", refresh, extra_cfg))
+    uwg = bool(cfg[7]) if len(cfg) > 7 else False
+    cfg = ("SPECIFICATION %s\nCONSTANTS\n  NB = %d\n  Q = %d\n  Pop = %s\n  Prog <- P\n  Fault <- F\n  Refresh = \"%s\"\n  UWG = %s\n  MaxTicks <- MT\n%s"
+           "CHECK_DEADLOCK FALSE\n" % (spec, nb, q, "TRUE" if pop else "FALSE", refresh, "TRUE" if uwg else "FALSE", extra_cfg))
     if invariants:
         cfg += "INVARIANTS " + invariants + "\n"
     open(os.path.join(wd, mod + ".cfg"), "w").write(cfg)
@@ -176,7 +179,8 @@ def scenario(name, sid, steps=None, mode="replay", seed=1, stats=True):
         clients.append(ops)
     return {"id": sid, "family": "core:" + name,
             "cfg": {"q": q, "refresh": refresh, "pop": pop, "notifier": False, "width": 120, "delay": False,
-                    "outfault": CONFIGS[name][6] if len(CONFIGS[name]) > 6 else 0, "ctx": False},
+                    "outfault": CONFIGS[name][6] if len(CONFIGS[name]) > 6 else 0, "ctx": False,
+                    "uwg": bool(CONFIGS[name][7]) if len(CONFIGS[name]) > 7 else False},
             "clients": clients,
             "sched": {"mode": mode, "seed": seed, "tickw": 1, "steps": steps or [], "budget": 0, "bias": []}, "stats": stats}
 
@@ -199,8 +203,8 @@ def scenario_to_config(sc):
     """A generated scenario as an MPBCore configuration, or None when it uses something the specification does not model yet."""
     c = sc["cfg"]
     outfault = c.get("outfault") or 0
-    if outfault > 3 or c.get("uwg"):
-        return None   # (a user wait group changes what Wait waits for: not in the specification)
+    if outfault > 3:
+        return None
     names, progs, fault_seen = {}, [], False
     for ci, prog in enumerate(sc["clients"]):
         for o in prog:
@@ -258,7 +262,7 @@ def scenario_to_config(sc):
         progs.append(q)
     if not names:
         return None
-    return (len(names), 128 if c["q"] < 0 else c["q"], c["pop"], progs, 0, c["refresh"], outfault)
+    return (len(names), 128 if c["q"] < 0 else c["q"], c["pop"], progs, 0, c["refresh"], outfault, bool(c.get("uwg")))
 
 
 # ---------------------------------------------------------------- labels
